@@ -81,7 +81,7 @@ def ancestors(pm, n):
 def is_try_propagated(pm, n):
     """True if expression n is the operand of `?` (possibly after map_err/ok_or/context adapters)."""
     cur = n
-    for _ in range(14):
+    for _ in range(24):
         p = pm.get(id(cur))
         if p is None:
             return False
@@ -98,6 +98,15 @@ def is_try_propagated(pm, n):
             continue
         if k == "Block" and p.get("expr") is cur and "mac_src" not in p:
             cur = p   # the value of the block
+            continue
+        if k is None and "pat" in p and p.get("body") is cur:
+            cur = p   # the value of a match arm ...
+            continue
+        if k == "Match" and p.get("src") == "Normal" and any(a is cur for a in p.get("arms", [])):
+            cur = p   # ... is the value of the match
+            continue
+        if k == "If" and (p.get("then") is cur or p.get("else") is cur):
+            cur = p
             continue
         if k in ("Call", "MethodCall") and p.get("inlined") is cur:
             cur = p   # the value of a helper body attached to its call site (facts._graft_helpers)
